@@ -5,6 +5,11 @@ HERE = os.path.dirname(os.path.dirname(os.path.abspath(__file__)))
 
 CLAIMED = {
  # id: (level, technique, text, note, design_ref)
+ "C16": ("exploration",
+         "deterministic simulation of a replicated state machine: the same seeded operation log is executed by replicas under different deployment configurations (use_aesni/use_clmul flags, patched CPU-feature probes, PYCRYPTODOME_DISABLE_GMP, build without the C modexp) and results, types and exceptions must never diverge",
+         "Seeded operation logs on three layers: (1) an integer register machine over the IntegerGMP, IntegerCustom and IntegerNative classes (45 operation kinds incl. in-place operators, shifts of negative values, modular exponentiation with odd/even/unit moduli, inverse, modular square root, Jacobi, byte conversion, mixed int/Integer operands, _mult_modulo_bytes; operands around word boundaries; the four named precondition violations compared by exception type; registers must stay in lock step); (2) AES in every mode with and without AES-NI and GCM with and without CLMUL on unaligned carriers, executed in a forked child so that a crash of one variant counts as a divergence; (3) three replica processes (default; GMP disabled with CPU probes patched off; build without _modexp with CLMUL off) executing RSA/DSA/ECDSA signing, OAEP, key and prime generation, primality tests and default-flag AES/GCM under shared entropy tapes. Sampling, not proof.",
+         "Absence of AES-NI/CLMUL is simulated by flags and patched probes on one CPU. Operands stay inside each method's evident domain apart from the four named preconditions. For modular square roots only r*r mod p and the range are compared.",
+         "DESIGN.md section 4 (C16)"),
  "C05": ("exploration",
          "deterministic simulation along three fault seams: entropy tapes fed to generate() (seeded, adversarial, and engineered by recording one run and substituting the read that produced q), storage faults on exported key files, single-component memory faults before construct(); independent invariant checker",
          "Narrow claim. Seeded search along three routes only: (a) generate() for RSA (1024/1025/1536 bits, several exponents), DSA on a fixed domain, ECC on nine curves (ElGamal in the thorough tier) under seeded, all-zero, all-0xFF and periodic tapes, tapes that put order-1 / order first, and an RSA tape engineered by recording the reads of one run and replacing the read that produced the second prime with a prime at a chosen distance from the first (FIPS 186-4 |p-q| margin); results must also be a function of the tape alone; (b) 24 damaged copies (bit flips, overwrites, double flips, torn writes) of one exported key file per case through import_key; (c) 16 damaged component tuples per case through construct(consistency_check=True). Every key handed out is checked by an independent checker on Python ints (primality by 40-base Miller-Rabin, subgroup relations, curve equations on all nine curves, RFC 8032/7748 derivations). Sampling, not proof.",
